@@ -35,7 +35,10 @@ EXTENDS Integers, Sequences, FiniteSets, TLC, Json, IOUtils
 
 CONSTANTS Families,     \* subset of {"expr","stmt","defs","mut","repo","doc","nest"}
           GrowDepth,    \* expr: nesting steps beyond the first constructor level
-          Stride        \* repo: every Stride-th token position (offset = Seed % Stride)
+          Stride,       \* repo: every Stride-th token position (offset = Seed % Stride)
+          MutStride,    \* mut: every MutStride-th token position of the base programs
+          DocEols,      \* doc: subset of {"lf", "crlf"}
+          DocBefores    \* doc: subset of {"none", "ascii", "wide"} (text before the fence)
 
 VARIABLES fam, cell, depth
 vars == <<fam, cell, depth>>
@@ -384,8 +387,8 @@ InitMut  == /\ fam = "mut" /\ depth = 0
 InitRepo == /\ fam = "repo" /\ depth = 0
             /\ \E d \in DOMAIN RepoLens : cell = [doc |-> d, cls |-> "none", arg |-> "", pos |-> 0]
 InitDoc  == /\ fam = "doc" /\ depth = 0
-            /\ \E fm \in DOMAIN FrontMatters, fe \in DOMAIN Fences, be \in DOMAIN Befores,
-                  bo \in DOMAIN Bodies, eol \in {"lf", "crlf"} :
+            /\ \E fm \in DOMAIN FrontMatters, fe \in DOMAIN Fences, be \in DocBefores,
+                  bo \in DOMAIN Bodies, eol \in DocEols :
                  cell = [fm |-> fm, fence |-> fe, before |-> be, body |-> bo, eol |-> eol,
                          lines |-> DocLines(fm, fe, be, bo), entry |-> "doc",
                          parse |-> DocParses(fm, fe, bo),
@@ -414,7 +417,7 @@ Grow ==
 (* mut: one token-level mutation of a base program at every position *)
 Mutate ==
   /\ fam = "mut" /\ depth = 0
-  /\ \E mc \in MutClasses, p \in 1..Len(cell.t) :
+  /\ \E mc \in MutClasses, p \in {q \in 1..Len(cell.t) : q % MutStride = Seed % MutStride} :
        cell' = [base |-> cell.base, cls |-> mc[1],
                 arg |-> IF mc[1] = "ins" THEN Delims[mc[2]] ELSE IF mc[1] = "rep" THEN Repls[mc[2]] ELSE "",
                 pos |-> p] @@ TokCell(Apply(cell.t, mc, p), "str", "any", "any")
